@@ -62,6 +62,8 @@ var commands = map[string]command{
 	"robust-replay":       robustReplay,
 	"robust-worker":       robustWorker,
 	"robust-trace":        robustTrace,
+	"registry-trace":      registryTrace,
+	"concurrent-run":      concurrentRun,
 }
 
 func main() {
